@@ -34,6 +34,8 @@ type Finding struct {
 	Signature string `json:"signature"` // structural id, matched against known_findings.json
 	What      string `json:"what"`
 	Replay    any    `json:"replay"`
+	// FoundInput: false when the finding names something that no longer checks but carries no concrete failing input
+	FoundInput *bool `json:"found_input,omitempty"`
 }
 
 type Ctx struct {
